@@ -30,6 +30,8 @@ R15.5 Registry.Imports appends each map value once and sorts by Path(); Packages
 	ruleNameAllocators(c, r, "R15.1", "R15.2", "R15.3")
 	ruleAddImport(c, r, "R15.4")
 	ruleImportsListing(c, r, "R15.5")
+	// a name handed out by the collision resolver is registered like an allocated one (C14 rule R14.5)
+	subRules(c, "R15.3", "resolver-registers", "every name the scope hands out must be recorded as taken: ", func(sub *Ctx) { ruleNameResolution(sub, loadRepo(sub, packages.LoadSyntax, "", "./template", "./internal"), "R14.5") })
 }
 
 func ruleNameAllocators(c *Ctx, r *Repo, r1, r2, r3 string) {
@@ -57,9 +59,16 @@ func ruleNameAllocators(c *Ctx, r *Repo, r1, r2, r3 string) {
 				}
 			}
 		}
-		if loop == nil || loop.Cond != nil {
-			c.Fail(r1, "SuggestName|shape", r.Pos(fd.Pos()), "SuggestName is not an unbounded candidate loop")
+		if loop == nil {
+			c.Fail(r1, "SuggestName|shape", r.Pos(fd.Pos()), "SuggestName has no candidate loop")
 		} else {
+			// 'for init; cond; post { body }' is 'for init; ; post { if !cond { break }; body }'
+			loopBody := loop.Body.List
+			if loop.Cond != nil {
+				guard := &ast.IfStmt{If: loop.Cond.Pos(), Cond: &ast.UnaryExpr{OpPos: loop.Cond.Pos(), Op: token.NOT, X: loop.Cond},
+					Body: &ast.BlockStmt{Lbrace: loop.Cond.End(), List: []ast.Stmt{&ast.BranchStmt{TokPos: loop.Cond.End(), Tok: token.BREAK}}, Rbrace: loop.Cond.End()}}
+				loopBody = append([]ast.Stmt{guard}, loopBody...)
+			}
 			d := newDT(info)
 			start := d.envBefore(seedEnv(d, fd), fd.Body.List, loop)
 			d.loopUnknown(start, loop)
@@ -69,7 +78,7 @@ func ruleNameAllocators(c *Ctx, r *Repo, r1, r2, r3 string) {
 				start.env[ctr] = "I"
 			}
 			d.paths = nil
-			d.stmts(start, loop.Body.List, func(p *dtPath) { d.finish(p, "end") })
+			d.stmts(start, loopBody, func(p *dtPath) { d.finish(p, "end") })
 			okLeave, okCont := false, true
 			cands := map[string]bool{}
 			const ne = "RECV.NameExists<(template.MethodScope).NameExists>("
@@ -151,8 +160,21 @@ func ruleNameAllocators(c *Ctx, r *Repo, r1, r2, r3 string) {
 					c.Fail(r1, "SuggestName|exit", r.Pos(p.RetPos), "unexpected exit from the candidate loop: "+p.String())
 				}
 			}
+			// a candidate held in a variable that is carried from one round to the next stands for the
+			// value it has before the loop and the values the continuing rounds leave in it
+			if sugObj != nil && cands["unknown("+sugObj.Name()+")"] {
+				delete(cands, "unknown("+sugObj.Name()+")")
+				if before := d.envBefore(seedEnv(d, fd), fd.Body.List, loop); before.env[sugObj] != "" {
+					cands[before.env[sugObj]] = true
+				}
+				for _, p := range d.paths {
+					if p.Exit == "continue" || p.Exit == "end" {
+						cands[p.env[sugObj]] = true
+					}
+				}
+			}
 			c.Check(okLeave && okCont, r1, "SuggestName|fresh-only", r.Pos(loop.Pos()), "a name is committed only right after NameExists said it is free", "SuggestName can return a name that was not just tested free")
-			wantC := map[string]bool{"ARG0": true, `fmt.Sprintf("%s%d", ARG0, I)`: true}
+			wantC := map[string]bool{"ARG0": true, `ARG0 + strconv.Itoa(I)`: true}
 			okC := len(cands) == 2
 			for k := range cands {
 				if !wantC[k] {
@@ -338,19 +360,38 @@ func ruleAddImport(c *Ctx, r *Repo, rule string) {
 	// the loop: conflict test on the candidate, alias assignment, break.
 	// The candidate is the variable used as the key of the importQualifiers lookup inside the loop.
 	var cand types.Object
-	ast.Inspect(loop.Body, func(n ast.Node) bool {
-		if ie, ok := n.(*ast.IndexExpr); ok && cand == nil {
-			if se, ok := ast.Unparen(ie.X).(*ast.SelectorExpr); ok && se.Sel.Name == "importQualifiers" {
-				if id, ok := ast.Unparen(ie.Index).(*ast.Ident); ok {
+	findCand := func(n ast.Node) bool {
+		switch x := n.(type) {
+		case *ast.IndexExpr:
+			if se, ok := ast.Unparen(x.X).(*ast.SelectorExpr); ok && se.Sel.Name == "importQualifiers" && cand == nil {
+				if id, ok := ast.Unparen(x.Index).(*ast.Ident); ok {
 					cand = info.Uses[id]
+				}
+			}
+		case *ast.CallExpr:
+			// a predicate of the package that looks its argument up in importQualifiers
+			if fn := calleeFunc(info, x); fn != nil && cand == nil && len(x.Args) == 1 {
+				if pd := pkgSingleReturn(tp)[fn]; pd != nil && strings.Contains(nodeString(pd.Body), ".importQualifiers") {
+					if id, ok := ast.Unparen(x.Args[0]).(*ast.Ident); ok {
+						cand = info.Uses[id]
+					}
 				}
 			}
 		}
 		return true
-	})
+	}
+	ast.Inspect(loop.Body, findCand)
+	// 'for init; cond; post { body }' is 'for init; ; post { if !cond { break }; body }'
+	loopBody := loop.Body.List
+	if loop.Cond != nil {
+		ast.Inspect(loop.Cond, findCand)
+		guard := &ast.IfStmt{If: loop.Cond.Pos(), Cond: &ast.UnaryExpr{OpPos: loop.Cond.Pos(), Op: token.NOT, X: loop.Cond},
+			Body: &ast.BlockStmt{Lbrace: loop.Cond.End(), List: []ast.Stmt{&ast.BranchStmt{TokPos: loop.Cond.End(), Tok: token.BREAK}}, Rbrace: loop.Cond.End()}}
+		loopBody = append([]ast.Stmt{guard}, loopBody...)
+	}
 	okConflict, okAlias, okNext := false, false, false
 	if cand != nil {
-		d := newDT(info)
+		d := newDTP(tp, fd)
 		before := d.envBefore(seedEnv(d, fd), fd.Body.List, loop)
 		q := before.env[cand] // the first candidate: the package's own qualifier
 		okFirst := strings.HasSuffix(q, ".Qualifier<(template.Package).Qualifier>()")
@@ -361,7 +402,7 @@ func ruleAddImport(c *Ctx, r *Repo, rule string) {
 			start.env[info.Defs[as.Lhs[0].(*ast.Ident)]] = "I"
 		}
 		d.paths = nil
-		d.stmts(start, loop.Body.List, func(p *dtPath) { d.finish(p, "end") })
+		d.stmts(start, loopBody, func(p *dtPath) { d.finish(p, "end") })
 		body := d.paths
 		okConflict, okNext = okFirst && len(body) > 0, okFirst
 		var leaving []*dtPath
@@ -373,7 +414,7 @@ func ruleAddImport(c *Ctx, r *Repo, rule string) {
 				if !(tested && taken) {
 					okConflict = false
 				}
-				if p.env[cand] != `fmt.Sprintf("%s%d", `+q+`, I)` {
+				if p.env[cand] != q+` + strconv.Itoa(I)` {
 					okNext = false
 				}
 			case "break":
